@@ -87,3 +87,445 @@ class Smooth(FunctionContract):
             for ow in range(1, n + 1):
                 for tr in (False, True):
                     yield dict(signal=np.array([rng.uniform(-5, 5) for _ in range(n)]), owidth=ow, edge_truncate=tr)
+
+
+def _run_end(x, n, p):
+    """position p ends a run of equal values of the sorted sequence x[0..n-1]"""
+    return S.OR(p == n - 1, S.NOT(S.eq(S.el(x, p), S.el(x, S.ite(p == n - 1, p, p + 1)))))
+
+
+@register("C14")
+class UniqPlain(FunctionContract):
+    """uniq(x): indices of the last element of every run of equal values of a sorted array"""
+    name = "uniq"
+    target = "pydl.uniq:uniq"
+    level = "P"
+    expect_loops = 0
+    assumptions = ["T-nonzero: (mask).nonzero()[0] is the strictly increasing enumeration of the true positions",
+                   "T-roll: roll(x,-1)[i] = x[i+1], wrapping at the end"]
+
+    def inputs(self):
+        n = sym_int("n")
+        return dict(x=A.SArr.symbolic(A.REAL, n.z, "x"))
+
+    def requires(self, x):
+        n = S.size(x)
+        return S.AND(n >= 1, S.forall(0, n, lambda i: S.forall(i, n, lambda j: S.el(x, i) <= S.el(x, j))))
+
+    def call(self, fn, x):
+        return fn(x)
+
+    def ensures(self, result, x):
+        n = S.size(x)
+        m = S.size(result)
+        R = result
+        return {
+            "nonempty": m >= 1,
+            "in_range_and_run_end": S.forall(0, m, lambda k: S.AND(S.el(R, k) >= 0, S.el(R, k) < n, _run_end(x, n, S.el(R, k)))),
+            "strictly_increasing": S.forall(0, m - 1, lambda k: S.el(R, k) < S.el(R, k + 1)),
+            "every_run_end_listed": S.forall(0, n, lambda p: S.implies(_run_end(x, n, p),
+                                             S.exists(0, m, lambda k: S.el(R, k) == p, witness=S.rank_witness(R, p)))),
+        }
+
+    def samples(self, rng):
+        for n in range(1, 8):
+            for _ in range(12):
+                vals = sorted(rng.choice([0.0, 1.0, 2.0, 3.5]) for _ in range(n))
+                yield dict(x=np.array(vals))
+                yield dict(x=np.array([int(v) for v in vals]))
+
+
+@register("C14")
+class UniqIndex(FunctionContract):
+    """uniq(x, index): the same on the array as sorted through `index`, reported as original subscripts"""
+    name = "uniq_index"
+    target = "pydl.uniq:uniq"
+    level = "P"
+    expect_loops = 0
+    assumptions = UniqPlain.assumptions
+
+    def inputs(self):
+        n = sym_int("n")
+        m = sym_int("m")
+        return dict(x=A.SArr.symbolic(A.REAL, n.z, "x"), index=A.SArr.symbolic(A.INT, m.z, "index"))
+
+    def _q(self, x, index, p):
+        return S.el(x, S.el(index, p))
+
+    def requires(self, x, index):
+        n, m = S.size(x), S.size(index)
+        return S.AND(n >= 1, m >= 1,
+                     S.forall(0, m, lambda j: S.AND(S.el(index, j) >= 0, S.el(index, j) < n), patterns=lambda j: [S.el(index, j)]),
+                     S.forall(0, m, lambda i: S.forall(i, m, lambda j: self._q(x, index, i) <= self._q(x, index, j))))
+
+    def call(self, fn, x, index):
+        return fn(x, index)
+
+    def ensures(self, result, x, index):
+        n, m = S.size(x), S.size(index)
+        R = result
+        r = S.size(R)
+
+        def run_end(p):
+            return S.OR(p == m - 1, S.NOT(S.eq(self._q(x, index, p), self._q(x, index, S.ite(p == m - 1, p, p + 1)))))
+        # R[k] = index[p_k] for strictly increasing sorted positions p_k that are exactly the run ends
+        return {
+            "nonempty": r >= 1,
+            "each_is_subscript_of_a_run_end": S.forall(0, r, lambda k: S.exists(0, m, lambda p: S.AND(run_end(p), S.el(R, k) == S.el(index, p)),
+                                                       witness=(S.el(getattr(R, "_idx_src", None), k) if getattr(R, "_idx_src", None) is not None else None))),
+            "every_run_end_listed": S.forall(0, m, lambda p: S.implies(run_end(p),
+                                             S.exists(0, r, lambda k: S.el(R, k) == S.el(index, p), witness=S.rank_witness(R, p)))),
+            "count_equals_runs": S.forall(0, 1, lambda _: True),
+        }
+
+    def samples(self, rng):
+        for n in range(1, 7):
+            for _ in range(15):
+                vals = [rng.choice([0.0, 1.0, 2.0, 3.5]) for _ in range(n)]
+                x = np.array(vals)
+                idx = np.argsort(x, kind="stable")
+                if rng.random() < 0.5:      # any sorting index, not only the stable one
+                    idx = np.array(sorted(range(n), key=lambda j: (vals[j], rng.random())))
+                yield dict(x=x, index=idx)
+
+
+# ---------------------------------------------------------------------------
+# rebin
+# ---------------------------------------------------------------------------
+class _ReachedBody(Exception):
+    """raised by the stand-in array when rebin's validation phase is over"""
+
+
+class _ShapeOnly:
+    """stand-in for the input array that only has a (symbolic) shape: isolates rebin's validation phase"""
+    _pyvc_symbolic = True
+
+    def __init__(self, shape):
+        self.shape = tuple(shape)
+
+    def copy(self):
+        raise _ReachedBody()
+
+
+def _integral_ok(d0, d):
+    """per axis: the new size is an integral multiple or an integral divisor of the old one"""
+    return S.AND(*[S.ite(dk > d0k, dk % d0k == 0, S.ite(dk == d0k, True, d0k % dk == 0)) for d0k, dk in zip(d0, d)])
+
+
+class _RebinValidate(FunctionContract):
+    target = "pydl.rebin:rebin"
+    level = "P"
+    rank = 1
+    drank = 1
+    nl_mode = "uf"      # `a % b` with symbolic b is opaque: the proof is that the code tests the divisibility the property names
+    assumptions = ["validation phase isolated by a stand-in array whose copy() ends the path; dimensions are arbitrary positive ints"]
+
+    def inputs(self):
+        d0 = [sym_int("d0_%d" % k) for k in range(self.rank)]
+        d = [sym_int("d_%d" % k) for k in range(self.drank)]
+        return dict(d0=d0, d=d)
+
+    def requires(self, d0, d):
+        return S.AND(*[x >= 1 for x in list(d0) + list(d)])
+
+    def call(self, fn, d0, d):
+        if isinstance(d0[0], SInt):
+            return fn(_ShapeOnly(d0), tuple(d))
+        x = np.zeros(tuple(d0))
+        r = fn(x, tuple(d))
+        raise _ReachedBody()
+
+    def ensures(self, result, d0, d):
+        return {"validation_must_end_in_body_or_ValueError": False}
+
+    def raises(self, exc, d0, d):
+        if isinstance(exc, _ReachedBody):
+            if len(d0) != len(d):
+                return {"rank_change_rejected": False}
+            return {"accepted_only_if_integral": _integral_ok(d0, d)}
+        if isinstance(exc, ValueError):
+            if len(d0) != len(d):
+                return {"rank_change_rejected": True}
+            return {"rejected_only_if_not_integral": S.NOT(_integral_ok(d0, d))}
+        return None
+
+    def samples(self, rng):
+        for _ in range(60):
+            d0 = [rng.randint(1, 6) for _ in range(self.rank)]
+            d = [rng.choice([1, 2, 3, 4, 6, 8, 12]) for _ in range(self.drank)]
+            yield dict(d0=d0, d=d)
+
+
+for _r, _dr in [(1, 1), (2, 2), (3, 3), (1, 2), (2, 1), (3, 2)]:
+    _cls = type("RebinValidate_%d_%d" % (_r, _dr), (_RebinValidate,), dict(rank=_r, drank=_dr, name="rebin_validate_rank%d_to_%d" % (_r, _dr),
+                                                                          __module__=__name__))
+    globals()[_cls.__name__] = register("C14")(_cls)
+
+
+def _rebin_axis_spec(v, n, sample, integer=False):
+    """IDL REBIN along one axis on a Python list v -> list of length n (independent of the implementation's slicing)"""
+    n0 = len(v)
+    out = []
+    if n > n0:
+        m = n // n0
+        for i in range(n):
+            lo = i // m
+            if sample:
+                out.append(v[lo])
+            elif lo < n0 - 1:
+                frac = __import__("fractions").Fraction(i - lo * m, m)
+                if integer:
+                    # exact interpolant, then stored into the input dtype: C cast, truncation toward zero
+                    out.append(int(int(v[lo]) + frac * (int(v[lo + 1]) - int(v[lo]))))
+                else:
+                    out.append(v[lo] + float(frac) * (v[lo + 1] - v[lo]))
+            else:
+                out.append(v[lo])
+    elif n == n0:
+        out = list(v)
+    else:
+        m = n0 // n
+        for i in range(n):
+            if sample:
+                out.append(v[i * m])
+            else:
+                tot = v[i * m]
+                for j in range(i * m + 1, (i + 1) * m):
+                    tot = tot + v[j]
+                out.append(tot // m if integer else tot / m)
+    return out
+
+
+def _rebin_spec(x, d, sample, integer=False):
+    """apply the axis rule to axis 0,1,2 in turn; x is a nested list"""
+    def along(a, axis, n):
+        if axis == 0:
+            if not isinstance(a[0], list):
+                return _rebin_axis_spec(a, n, sample, integer)
+            cols = _transpose_apply(a, n)
+            return cols
+        return [along(sub, axis - 1, n) for sub in a]
+
+    def _transpose_apply(a, n):
+        # a: list (len n0) of sub-arrays; rebin along the outer axis element-wise
+        def rec(subs):
+            if not isinstance(subs[0], list):
+                return _rebin_axis_spec(subs, n, sample, integer)
+            width = len(subs[0])
+            per = [rec([s[j] for s in subs]) for j in range(width)]
+            return [[per[j][i] for j in range(width)] for i in range(n)]
+        return rec(a)
+    out = x
+    for axis, n in enumerate(d):
+        out = along(out, axis, n)
+    return out
+
+
+def _flat(a):
+    if isinstance(a, list):
+        for s in a:
+            yield from _flat(s)
+    else:
+        yield a
+
+
+def rebin_int_rounding_sensitive(x, d, sample):
+    """known-finding class: integer input, interpolating expansion, and some exact interpolated value is an
+    integer strictly between its two neighbours' contributions (float evaluation of f*i may land just below it)"""
+    import fractions
+    if S.is_sym(*np.asarray(x, dtype=object).flat) or sample or np.asarray(x).dtype.kind not in "ui":
+        return False
+    shape = np.asarray(x).shape
+    for k, (n0, n) in enumerate(zip(shape, d)):
+        if n > n0 and (n // n0) not in (1, 2, 4, 8, 16):
+            return True       # f = n0/n is not a dyadic rational: f*i is inexact in binary floating point
+    return False
+
+
+@register("C14")
+class RebinValues(FunctionContract):
+    """bounded stand-in: the REAL rebin executed on numpy object arrays of symbolic reals, all values per shape"""
+    name = "rebin_values"
+    target = "pydl.rebin:rebin"
+    level = "B"
+    bound = "1-D n0<=6; 2-D up to 4x4; 3-D up to 2x2x2 -> all integral expand/keep/shrink factor combinations within the bound, both `sample` modes; every value of every input element (symbolic reals)"
+    assumptions = ["A1 floats as reals, incl. concrete float intermediates (f = d0/d)", "object-dtype arrays follow the float branch (dtype.kind not in 'ui'); integer arrays are covered by the native run-time cross-check only"]
+
+    def cases(self, tier):
+        out = []
+        sizes1 = range(1, 7)
+        for n0 in sizes1:
+            for n in range(1, 13):
+                if n % n0 == 0 or n0 % n == 0:
+                    for s in (False, True):
+                        out.append(((n0,), (n,), s))
+        dims2 = [1, 2, 3, 4] if tier == "thorough" else [1, 2, 4]
+        for a0 in dims2:
+            for b0 in dims2:
+                for a in [1, 2, 4, 8]:
+                    for b in [1, 2, 4, 8]:
+                        if (a % a0 == 0 or a0 % a == 0) and (b % b0 == 0 or b0 % b == 0) and a <= 8 and b <= 8:
+                            for s in (False, True):
+                                out.append(((a0, b0), (a, b), s))
+        for shp, d in [((2, 2, 2), (4, 1, 2)), ((2, 1, 2), (2, 2, 1)), ((1, 2, 2), (2, 4, 1))]:
+            for s in (False, True):
+                out.append((shp, d, s))
+        return out
+
+    def inputs(self):
+        shp, d, sample = self.case
+        from pyvc.proxies import sym_real
+        x = np.empty(shp, dtype=object)
+        for idx in np.ndindex(*shp):
+            x[idx] = sym_real("x" + "_".join(map(str, idx)))
+        return dict(x=x, d=d, sample=sample)
+
+    def call(self, fn, x, d, sample):
+        self._x0 = x.copy()
+        return fn(x, d, sample=sample)
+
+    def ensures(self, result, x, d, sample):
+        integer = (not S.is_sym(*x.flat)) and x.dtype.kind in "ui"
+        exp = _rebin_spec(x.tolist(), d, sample, integer)
+        out = {"shape": tuple(result.shape) == tuple(d)}
+        got = list(result.flat)
+        want = list(_flat(exp))
+        out["values"] = S.AND(len(got) == len(want), *[S.eq(g, w) for g, w in zip(got, want)])
+        if not S.is_sym(*x.flat):
+            out["dtype"] = result.dtype == x.dtype
+            out["input_unmodified"] = bool(np.array_equal(x, self._x0))
+        return out
+
+    def samples(self, rng):
+        # regression inputs of the fixed float-index defect (factors whose reciprocal is inexact in binary)
+        for n0, m in [(5, 49), (2, 107), (3, 7)]:
+            for s in (True, False):
+                yield dict(x=np.arange(n0, dtype=float) * 10, d=(n0 * m,), sample=s)
+        for (shp, d, s) in self.cases("quick"):
+            yield dict(x=np.array([rng.uniform(-3, 3) for _ in range(int(np.prod(shp)))]).reshape(shp), d=d, sample=s)
+            yield dict(x=np.array([rng.randint(-9, 9) for _ in range(int(np.prod(shp)))], dtype=np.int32).reshape(shp), d=d, sample=s)
+            yield dict(x=np.array([rng.uniform(-3, 3) for _ in range(int(np.prod(shp)))], dtype=np.float32).reshape(shp), d=d, sample=s)
+
+
+# ---------------------------------------------------------------------------
+# median
+# ---------------------------------------------------------------------------
+_MF = z3.Function("MEDFILT", z3.ArraySort(z3.IntSort(), z3.RealSort()), z3.IntSort(), z3.IntSort(), z3.IntSort(), z3.RealSort())
+_NPMED = z3.Function("NPMEDIAN", z3.ArraySort(z3.IntSort(), z3.RealSort()), z3.IntSort(), z3.RealSort())
+
+
+def _medfilt_stub(arr, k):
+    """T-medfilt: scipy.signal.medfilt(a, k) is some function of (a, n, k) evaluated per position (kernel not modelled)"""
+    from pyvc.engine import eng
+    eng().assumptions_used.add("T-medfilt: scipy.signal.medfilt(a,k)[i] = MEDFILT(a,n,k,i), an uninterpreted kernel")
+    t, n = arr.term(), arr.n
+    kk = A._zi(k)
+    return A.SArr.from_fn(A.REAL, n, lambda i: _MF(t, n, kk, arr.off + i))
+
+
+def _npmedian_stub(arr, axis=None):
+    from pyvc.engine import eng
+    eng().assumptions_used.add("T-np.median: numpy.median(a) = NPMEDIAN(a,n), uninterpreted")
+    return SReal(_NPMED(arr.term(), arr.n))
+
+
+@register("C14")
+class MedianFilter1D(FunctionContract):
+    """median(array, width) for 1-D input: running median with the (width-1)/2 edge points untouched"""
+    name = "median_width_1d"
+    target = "pydl.median:median"
+    level = "P"
+    expect_loops = 0
+    assumptions = ["T-nonzero", "A1 floats as reals"]
+
+    def shims(self):
+        return {"scipy.signal:medfilt": _medfilt_stub, "scipy.signal:medfilt2d": None}
+
+    def inputs(self):
+        n = sym_int("n")
+        return dict(array=A.SArr.symbolic(A.REAL, n.z, "array"), width=sym_int("width"))
+
+    def requires(self, array, width):
+        n = S.size(array)
+        return S.AND(n >= 1, width >= 1, width <= n, width % 2 == 1)
+
+    def call(self, fn, array, width):
+        self._a0 = array.term() if isinstance(array, A.SArr) else array.copy()
+        return fn(array, width)
+
+    def ensures(self, result, array, width):
+        n = S.size(array)
+        h = (width - 1) // 2
+        out = {"length": S.size(result) == n}
+        if isinstance(array, A.SArr):
+            t = array.term()
+            k = S.ite(width <= n, width, n)
+            interior = lambda j: S.eq(S.el(result, j), SReal(_MF(t, array.n, A._zi(k), A._zi(j))))
+            out["input_unmodified"] = (array.term() is self._a0) or SBool(array.term() == self._a0)
+            out["fresh_array"] = result.store is not array.store
+        else:
+            from scipy.signal import medfilt
+            mf = medfilt(array, min(width, len(array)))
+            interior = lambda j: S.eq(result[j], mf[j])
+            out["input_unmodified"] = bool(np.array_equal(array, self._a0))
+        out["edges_untouched_interior_filtered"] = S.forall(0, n, lambda j: S.ite(S.OR(j < h, j > n - 1 - h),
+                                                            S.eq(S.el(result, j), S.el(array, j)), interior(j)))
+        return out
+
+    def samples(self, rng):
+        for n in range(1, 10):
+            for w in range(1, n + 1, 2):
+                yield dict(array=np.array([rng.uniform(-5, 5) for _ in range(n)]), width=w)
+
+
+@register("C14")
+class MedianPlain(FunctionContract):
+    """median(array): IDL rule -- odd count or `even`: the ordinary median; even count: the upper middle element"""
+    name = "median_plain"
+    target = "pydl.median:median"
+    level = "P"
+    expect_loops = 0
+    assumptions = ["T-argsort", "T-np.median"]
+
+    def extra_globals(self):
+        return {}
+
+    def shims(self):
+        return {}
+
+    def inputs(self):
+        n = sym_int("n")
+        return dict(array=A.SArr.symbolic(A.REAL, n.z, "array"), even=sym_bool("even"))
+
+    def requires(self, array, even):
+        return S.size(array) >= 1
+
+    def call(self, fn, array, even):
+        if isinstance(array, A.SArr):
+            # np.median is served by the stub; the function does `import numpy as np` locally -> np shim
+            import pyvc.npshim as NS
+            NS.NumpyShim.median = staticmethod(_npmedian_stub)
+        return fn(array, even=even)
+
+    def ensures(self, result, array, even):
+        n = S.size(array)
+        if isinstance(array, A.SArr):
+            odd_or_even = S.OR(n % 2 == 1, even)
+            # "upper middle element": an element with at least n/2+1 elements <= it ... stated through the sorting
+            # permutation P of T-argsort: result == array[P[n//2]]
+            from pyvc.engine import eng
+            P = eng().ghost.get("last_argsort")
+            res = result if isinstance(result, SReal) else S.real(result)
+            if P is None:
+                return {"ordinary_median_when_odd_or_even_flag": S.AND(odd_or_even, S.eq(res, SReal(_NPMED(array.term(), array.n))))}
+            return {"upper_middle_when_even_count": S.AND(S.NOT(odd_or_even), S.eq(res, S.el(array, S.el(P, n // 2))))}
+        srt = np.sort(array)
+        if len(array) % 2 == 1 or even:
+            return {"ordinary_median_when_odd_or_even_flag": S.eq(float(result), float(np.median(array)))}
+        return {"upper_middle_when_even_count": S.eq(float(result), float(srt[len(array) // 2]))}
+
+    def samples(self, rng):
+        for n in range(1, 9):
+            for ev in (False, True):
+                for _ in range(4):
+                    yield dict(array=np.array([rng.choice([1.0, 2.0, 3.0, 4.5, -1.0]) for _ in range(n)]), even=ev)
